@@ -239,3 +239,85 @@ FINGERPRINTS = {
     'Module.writeInitParams': lambda: find_func(find_class(parse(MB), 'Module'), 'writeInitParams'),
     'Module._handle_writes': lambda: find_func(find_class(parse(MB), 'Module'), '_handle_writes'),
 }
+
+
+DT = 'frappy/datatypes.py'
+
+
+def _dt_func(cls, name):
+    return find_func(find_class(parse(DT), cls), name)
+
+
+def _body(f):
+    return [s for s in f.body if not (isinstance(s, ast.Expr) and isinstance(s.value, ast.Constant))]
+
+
+def _check_type_rejects_str_dict(cls):
+    f = _dt_func(cls, 'check_type')
+    first = _body(f)[0]
+    return isinstance(first, ast.If) and _norm(first.test) == 'isinstance(value,(str,bytes,dict))' and \
+        any(isinstance(s, ast.Raise) for s in first.body)
+
+
+def array_import_checks_kind_and_length():
+    """ArrayOf.import_value: self.check_type(value) first (rejects str/bytes/dict, checks minlen..maxlen), then the
+    tuple of the imported elements"""
+    b = _body(_dt_func('ArrayOf', 'import_value'))
+    ok = len(b) == 2 and _norm(b[0]) == 'self.check_type(value)' and \
+        _norm(b[1]) == 'returntuple((self.members.import_value(elem)foreleminvalue))'
+    ct = _norm(_dt_func('ArrayOf', 'check_type'))
+    ok = ok and _check_type_rejects_str_dict('ArrayOf') and 'len(value)<self.minlen' in ct and 'len(value)>self.maxlen' in ct
+    return 'bool', cbool(ok)
+
+
+def tuple_import_checks_kind_and_length():
+    b = _body(_dt_func('TupleOf', 'import_value'))
+    ok = len(b) == 2 and _norm(b[0]) == 'self.check_type(value)' and \
+        _norm(b[1]) == 'returntuple((sub.import_value(elem)forsub,eleminzip(self.members,value)))'
+    ct = _norm(_dt_func('TupleOf', 'check_type'))
+    ok = ok and _check_type_rejects_str_dict('TupleOf') and 'iflen(value)==len(self.members):return' in ct
+    return 'bool', cbool(ok)
+
+
+def struct_import_admits_missing_optional():
+    """StructOf.import_value: self.check_type(value, True), then the dict of imported members"""
+    b = _body(_dt_func('StructOf', 'import_value'))
+    ok = len(b) == 2 and _norm(b[0]) == 'self.check_type(value,True)' and \
+        _norm(b[1]) == 'return{str(k):self.members[k].import_value(v)fork,vinvalue.items()}'
+    ct = _norm(_dt_func('StructOf', 'check_type'))
+    ok = ok and 'ifnotisinstance(value,dict):raise' in ct
+    return 'bool', cbool(ok)
+
+
+def scaled_import_integers_only():
+    s = _norm(_dt_func('ScaledInteger', 'import_value'))
+    ok = 'ifisinstance(value,float)andvalue.is_integer():value=int(value)' in s and \
+        'ifnotisinstance(value,int):' in s and 'returnself.scale*value' in s
+    return 'bool', cbool(ok)
+
+
+def blob_import_strict_base64():
+    s = _norm(_dt_func('BLOBType', 'import_value'))
+    return 'bool', cbool('returnb64decode(value,validate=True)' in s)
+
+
+def int_and_blob_import_without_limits():
+    """IntRange has no import_value of its own (DataType.import_value = self(value), __call__ has no limit test);
+    BLOBType.import_value does not look at minbytes/maxbytes"""
+    cls = find_class(parse(DT), 'IntRange')
+    has_own = any(isinstance(n, ast.FunctionDef) and n.name == 'import_value' for n in cls.body)
+    call = _norm(_dt_func('IntRange', '__call__'))
+    base = _norm(_dt_func('DataType', 'import_value'))
+    blob = _norm(_dt_func('BLOBType', 'import_value'))
+    ok = not has_own and 'self.min' not in call and 'self.max' not in call and 'returnself(value)' in base \
+        and 'minbytes' not in blob and 'maxbytes' not in blob
+    return 'bool', cbool(ok)
+
+
+FACTS += [array_import_checks_kind_and_length, tuple_import_checks_kind_and_length,
+          struct_import_admits_missing_optional, scaled_import_integers_only, blob_import_strict_base64,
+          int_and_blob_import_without_limits]
+for _cls, _fn in (('ArrayOf', 'import_value'), ('ArrayOf', 'check_type'), ('TupleOf', 'import_value'),
+                  ('TupleOf', 'check_type'), ('StructOf', 'import_value'), ('StructOf', 'check_type'),
+                  ('ScaledInteger', 'import_value'), ('BLOBType', 'import_value')):
+    FINGERPRINTS[f'{_cls}.{_fn}'] = (lambda c=_cls, f=_fn: _dt_func(c, f))
